@@ -270,16 +270,19 @@ def run_test_cmd(ctx, nscen):
     coq_terms = {}
     for k, sc in enumerate(scen):
         d = os.path.join(ctx.wd, 't%d' % k)
-        files = {'r.guard': sc['rules']}
+        # the base name of the rules file: the --dir walk is sorted by name and descends into tests/ on the way, so names that
+        # sort before and after "tests" are both used
+        stem = ['r', 'api', 'vpc', 'waf', 'tf_main', 'Zeta', 'tests_of'][k % 7]
+        files = {stem + '.guard': sc['rules']}
         spec_terms = []
         parse_state = parse_states[k]
         for a, spec in enumerate(sc['specs']):
             if spec == 'BAD':
-                files['tests/r_%d.yaml' % a] = '- input: {a: [\n'
+                files['tests/%s_%d.yaml' % (stem, a)] = '- input: {a: [\n'
                 spec_terms.append('SpecBad')
                 continue
             doc = [{'name': 'case%d' % b, 'input': c['input'], 'expectations': {'rules': c['exp']}} for b, c in enumerate(spec)]
-            files['tests/r_%d.yaml' % a] = json.dumps(doc)
+            files['tests/%s_%d.yaml' % (stem, a)] = json.dumps(doc)
             cts = []
             for c in spec:
                 if c['outcome'] == 'PARSE_ERR':
@@ -302,10 +305,10 @@ def run_test_cmd(ctx, nscen):
         e2e.write_files(d, files)
         # single-file form takes the tests directory; dir form takes the scenario directory
         for label, fn, args in [
-            ('plain-single', 'plain_single', ['test', '-a', '-r', 'r.guard', '-t', 'tests']),
-            ('json-single', 'structured_single', ['test', '-a', '-r', 'r.guard', '-t', 'tests', '-o', 'json']),
-            ('yaml-single', 'structured_single', ['test', '-a', '-r', 'r.guard', '-t', 'tests', '-o', 'yaml']),
-            ('junit-single', 'structured_single', ['test', '-a', '-r', 'r.guard', '-t', 'tests', '-o', 'junit']),
+            ('plain-single', 'plain_single', ['test', '-a', '-r', stem + '.guard', '-t', 'tests']),
+            ('json-single', 'structured_single', ['test', '-a', '-r', stem + '.guard', '-t', 'tests', '-o', 'json']),
+            ('yaml-single', 'structured_single', ['test', '-a', '-r', stem + '.guard', '-t', 'tests', '-o', 'yaml']),
+            ('junit-single', 'structured_single', ['test', '-a', '-r', stem + '.guard', '-t', 'tests', '-o', 'junit']),
             ('plain-dir', 'plain_dir', ['test', '-d', '.']),
             ('json-dir', 'structured_dir', ['test', '-d', '.', '-o', 'json']),
         ]:
